@@ -1,7 +1,9 @@
 // skeleton regenerates, from the Go sources under a pike checkout, the Coq
 // files the per-run proof obligations are instantiated with:
-//   Consts.v   — literals the model depends on
-//   Skeleton.v — ordered lock/field-access event lists of selected functions
+//
+//	Consts.v   — literals the model depends on
+//	Skeleton.v — ordered lock/field-access event lists of selected functions
+//
 // It uses go/ast only (no type checking), so it runs in well under a second.
 package main
 
